@@ -121,3 +121,93 @@ func VerifC19Batch() {
 	}
 	nd.Reach("end")
 }
+
+// VerifC19Limits: batches at the service limits. A BatchWriteItem of exactly 25 requests (puts and deletes,
+// over one or two tables) succeeds and equals its item-by-item decomposition; a BatchGetItem of 25, 26 or 100
+// keys (stored and absent ones mixed, over one or two tables) succeeds and returns exactly the stored items.
+func VerifC19Limits() {
+	mk := func() *Client {
+		c := NewClient()
+		nd.Assert(AddTable(vCtx, c, vTbl, "p", "") == nil, "setup-addtable")
+		nd.Assert(AddTable(vCtx, c, vTbl2, "p", "") == nil, "setup-addtable")
+		return c
+	}
+	c, twin := mk(), mk()
+	key := func(i int) string { return "k" + string(rune('0'+i/10)) + string(rune('0'+i%10)) }
+	tableOf := func(i int, two bool) string {
+		if two && i%2 == 1 {
+			return vTbl2
+		}
+		return vTbl
+	}
+	two := nd.Choice("two-tables", 2) == 1
+	// pre-state: the even keys below 20 are stored (on both clients)
+	for i := 0; i < 20; i += 2 {
+		for _, cl := range []*Client{c, twin} {
+			_, err := cl.PutItem(vCtx, &dynamodb.PutItemInput{TableName: aws.String(tableOf(i, two)), Item: vItem{"p": vS(key(i)), "v": vS("pre")}})
+			nd.Assert(err == nil, "setup-put")
+		}
+	}
+	if nd.Choice("call", 2) == 0 {
+		// 25 writes: deletes of keys 0..9 (half of them stored), puts of keys 10..24
+		reqs := map[string][]types.WriteRequest{}
+		for i := 0; i < 25; i++ {
+			t := tableOf(i, two)
+			if i < 10 {
+				reqs[t] = append(reqs[t], types.WriteRequest{DeleteRequest: &types.DeleteRequest{Key: vItem{"p": vS(key(i))}}})
+				_, err := twin.DeleteItem(vCtx, &dynamodb.DeleteItemInput{TableName: aws.String(t), Key: vItem{"p": vS(key(i))}})
+				nd.Assert(err == nil, "twin-delete")
+			} else {
+				it := vItem{"p": vS(key(i)), "v": vS("new")}
+				reqs[t] = append(reqs[t], types.WriteRequest{PutRequest: &types.PutRequest{Item: it}})
+				_, err := twin.PutItem(vCtx, &dynamodb.PutItemInput{TableName: aws.String(t), Item: it})
+				nd.Assert(err == nil, "twin-put")
+			}
+		}
+		out, err := c.BatchWriteItem(vCtx, &dynamodb.BatchWriteItemInput{RequestItems: reqs})
+		nd.Reach("write-25")
+		nd.Assert(err == nil, "C19-batch-of-25-writes-accepted")
+		if err == nil {
+			left := 0
+			for _, l := range out.UnprocessedItems {
+				left += len(l)
+			}
+			nd.Assert(left == 0, "C19-batch-of-25-writes-all-processed")
+		}
+		for _, t := range []string{vTbl, vTbl2} {
+			nd.Assert(vSameItems(vScanTable(c, t), vScanTable(twin, t)), "C19-batch-of-25-equals-decomposition")
+		}
+	} else {
+		n := []int{25, 26, 100}[nd.Choice("keys", 3)]
+		reqs := map[string]types.KeysAndAttributes{}
+		for i := 0; i < n; i++ {
+			t := tableOf(i, two)
+			ka := reqs[t]
+			ka.Keys = append(ka.Keys, vItem{"p": vS(key(i))})
+			reqs[t] = ka
+		}
+		out, err := c.BatchGetItem(vCtx, &dynamodb.BatchGetItemInput{RequestItems: reqs})
+		nd.Reach("get-many")
+		nd.Assert(err == nil, "C19-batchget-within-the-100-key-limit-accepted")
+		if err == nil {
+			got := 0
+			for t, items := range out.Responses {
+				for _, it := range items {
+					p, _ := vGetS(it, "p")
+					one, gerr := c.GetItem(vCtx, &dynamodb.GetItemInput{TableName: aws.String(t), Key: vItem{"p": vS(p)}})
+					nd.Assert(gerr == nil && vSameItem(one.Item, it), "C19-batchget-item-equals-getitem")
+					got++
+				}
+			}
+			nd.Assert(got == 10, "C19-batchget-returns-exactly-the-stored-items")
+			if !nd.Known("C19-v2-batchget-absent-key-unprocessed") {
+				left := 0
+				for _, ka := range out.UnprocessedKeys {
+					left += len(ka.Keys)
+				}
+				nd.Assert(left == 0, "C19-batchget-absent-keys-not-unprocessed")
+			}
+		}
+	}
+	nd.Reach("end")
+}
